@@ -26,6 +26,8 @@ def run(res, pool, tier, seed):
                 dict(module="MC_Mem.tla", tag="s8-near", invariants=INVS, timeout=7200,
                      constants=dict(S=8, BODIES=set(POLYH + POLYG), KC=set(KC), KX={"Point"}, B=1, SEED=sd, NSHARD=12, NSHARDP=3))]
     engine.run_jobs(res, jobs, pool)
+    import traces
+    traces.run_for(res, ["driver"] if tier == "quick" else ["unit_tests", "driver"], {"C05"}, seed=seed + 3, nsessions=250 if tier == "quick" else 2500)
 
 
 def replay_case(case, tag, rng, tier):
